@@ -505,6 +505,11 @@ class Interp:
             return SBool({ast.Lt: ta < tb, ast.LtE: ta <= tb, ast.Gt: ta > tb, ast.GtE: ta >= tb}[type(op)])
         if isinstance(a, str) and isinstance(b, str):
             return {ast.Lt: a < b, ast.LtE: a <= b, ast.Gt: a > b, ast.GtE: a >= b}[type(op)]
+        if isinstance(a, (str, SStr)) and isinstance(b, (str, SStr)) and not getattr(a, "is_bytes", False) \
+                and not getattr(b, "is_bytes", False):
+            # str ordering is lexicographic by code point = z3's str.< / str.<=
+            ta, tb = _t(a), _t(b)
+            return SBool({ast.Lt: ta < tb, ast.LtE: ta <= tb, ast.Gt: tb < ta, ast.GtE: tb <= ta}[type(op)])
         if (a is None or b is None or isinstance(a, (str, SStr)) != isinstance(b, (str, SStr))):
             self.raise_("TypeError", "unorderable")
         raise Outside(f"ordering of {type(a).__name__} and {type(b).__name__}")
